@@ -219,6 +219,7 @@ def plan(tier, seed):
         specs.append({"mode": "rand", "seed": seed * 1000003 + 17 * 1009 + i, "n": RAND_N[tier] // nr})
     specs.append({"mode": "readonly", "seed": seed * 1000003 + 17 * 1009 + 999, "nrand": 300 if tier == "quick" else 3000})
     specs.append({"mode": "large"})
+    specs.append({"mode": "threads", "rounds": 12 if tier == "quick" else 60})
     specs.append({"mode": "diskfull", "seed": seed})
     # long shards first; a few shards contribute the evidence samples
     specs.sort(key=lambda s: -s.get("expect", 0))
@@ -244,6 +245,7 @@ def required_counters(tier):
         "rand:histories",
         "mutable-producer-histories",
         "large-histories",
+        "threaded-buffers",
         "diskfull:cases",
         "diskfull:append-raised",
         "remain_invariant_checked",
@@ -836,8 +838,74 @@ def run_diskfull(acc, spec, only=None):
                                 pass
     finally:
         tempfile.TemporaryFile = real_tf
+    # the temporary file cannot even be created (EMFILE) at the k-th attempt: the failing call raises, what
+    # was queued before stays queued, and the buffer goes on working
+    m = 0
+    try:
+        for ov in (0, 2, 8191, 20000):
+            for kth in (1, 2):
+                for sizes in ([9000, 9000], [5000, 5000, 5000], [1, 8191, 12000], [4000, 22000, 10]):
+                    for consume in (0, 7):
+                        if only is not None:
+                            break
+                        calls = [0]
+
+                        def factory(*a, **k):
+                            calls[0] += 1
+                            if calls[0] == kth:
+                                raise OSError(_errno.EMFILE, "Too many open files")
+                            return real_tf(*a, **k)
+
+                        tempfile.TemporaryFile = factory
+                        buf = B.OverflowableBuffer(ov)
+                        q = bytearray()
+                        pos = 0
+                        case = {"kind": "createfail", "overflow": ov, "kth": kth, "sizes": sizes, "consume": consume}
+                        m += 1
+                        acc.evaluations += 1
+                        try:
+                            alt = None  # the queue if the failing append had already taken its data
+                            for i, size in enumerate(sizes):
+                                data = PAT[pos:pos + size]
+                                pos += size
+                                try:
+                                    buf.append(data)
+                                    q += data
+                                    if alt is not None:
+                                        alt += data
+                                except OSError:
+                                    acc.count("createfail:append-raised")
+                                    if alt is None:
+                                        alt = bytearray(q) + data
+                                if consume and i == 0 and len(q) >= consume:
+                                    try:
+                                        buf.skip(consume, True)
+                                        del q[:consume]
+                                        if alt is not None:
+                                            del alt[:consume]
+                                    except OSError:
+                                        acc.count("createfail:skip-raised")
+                            n_ = buf.__len__()
+                            cands = [bytes(q)] + ([bytes(alt)] if alt is not None else [])
+                            if n_ not in [len(c) for c in cands]:
+                                acc.violation("len-mismatch:tempfile-creation-failed",
+                                              f"after a failed temp-file creation __len__ is {n_}; what was accepted is {[len(c) for c in cands]} bytes | {case}", case)
+                                continue
+                            got = buf.get(n_)
+                            if got not in cands and not any(c.startswith(got) and len(got) == n_ for c in cands):
+                                acc.violation("peek-not-prefix:tempfile-creation-failed", f"get({n_}) does not return what was accepted | {case}", case)
+                        except Exception as e:  # noqa
+                            acc.violation("exception:" + type(e).__name__ + ":tempfile-creation-failed", f"{type(e).__name__}: {e} | {case}", case)
+                        finally:
+                            try:
+                                buf.close()
+                            except Exception:  # noqa
+                                pass
+    finally:
+        tempfile.TemporaryFile = real_tf
+    acc.count("createfail:cases", m)
     acc.count("diskfull:cases", n)
-    acc.sample({"mode": "diskfull", "cases": n})
+    acc.sample({"mode": "diskfull", "cases": n, "creation_failures": m})
 
 
 # --------------------------------------------------------------------- shards
@@ -887,6 +955,60 @@ def run_shard(spec):
         acc.sample({"mode": "large", "queued_up_to": 533289})
     elif mode == "diskfull":
         run_diskfull(acc, spec)
+    elif mode == "threads":
+        # buffers of different connections live in different threads: each one is used sequentially, but
+        # several migrate to a temp file at the same time (real threads, a very short switch interval)
+        import sys as _sys
+        import threading
+
+        from waitress import buffers as B
+
+        old_iv = _sys.getswitchinterval()
+        _sys.setswitchinterval(1e-6)
+        bad = []
+        total = [0]
+
+        def worker(tix, rounds):
+            for r in range(rounds):
+                # thresholds above one internal copy block: the in-memory file holds several hundred kB when it
+                # migrates, so the copy loop runs more than once
+                ov = (300000, 420000, 9000)[(tix + r) % 3]
+                buf = B.OverflowableBuffer(ov)
+                want = bytearray()
+                block = bytes([65 + tix]) * 50000 + b"%04d" % r
+                for _i in range(10):  # 500 kB
+                    buf.append(block)
+                    want += block
+                if ov == 9000:
+                    buf.skip(5, True)
+                    del want[:5]
+                got = bytearray()
+                while True:
+                    chunk = buf.get(65536, skip=True)
+                    if not chunk:
+                        break
+                    got += chunk
+                total[0] += 1
+                if bytes(got) != bytes(want):
+                    first = next((i for i in range(min(len(got), len(want))) if got[i] != want[i]), min(len(got), len(want)))
+                    bad.append((tix, r, ov, len(got), len(want), first))
+                buf.close()
+
+        try:
+            ths = [threading.Thread(target=worker, args=(i, spec["rounds"])) for i in range(4)]
+            for t in ths:
+                t.start()
+            for t in ths:
+                t.join(600)
+        finally:
+            _sys.setswitchinterval(old_iv)
+        acc.evaluations += total[0]
+        acc.count("threaded-buffers", total[0])
+        for tix, r, ov, lg, lw, first in bad[:5]:
+            acc.violation("foreign-bytes-under-concurrency",
+                          f"a buffer used by one thread only (overflow={ov}) returned {lg} bytes for {lw} queued, first difference at offset {first}, "
+                          f"while three other threads used their own buffers", {"kind": "threads", "rounds": spec["rounds"]})
+        acc.sample({"mode": "threads", "buffers": total[0], "threads": 4})
     else:
         rng = random.Random(spec["seed"])
         for case in readonly_grid() + nonseekable_grid():
@@ -923,6 +1045,12 @@ def replay(case):
              "what": f"overflow={case['overflow']} op#{idx}: {what} | history: {brief_ops(case['ops'])}"[:900], "case": case}
             for key, what, idx in viols
         ]
+    if kind == "threads":
+        return []  # a stress run with real threads is not replayable step by step
+    if kind == "createfail":
+        acc = Acc()
+        run_diskfull(acc, {}, only=None)
+        return [v for v in acc.violations if v.get("case") == case]
     if kind == "diskfull":
         acc = Acc()
         run_diskfull(acc, {}, only={k: case[k] for k in ("kind", "overflow", "budget", "sizes", "consume")})
